@@ -1,0 +1,30 @@
+//go:build verif
+
+package dhcp4_spoofer
+
+import (
+	"github.com/irai/packet"
+)
+
+// Contracts for the DHCPv4 handler.
+
+func spec_subnet_ok(n *dhcpSubnet) bool {
+	return n != nil
+}
+
+func spec_handler_ok(h *Handler) bool {
+	return h != nil && h.session != nil && packet.VerifSpecSessionOK(h.session) && h.table != nil &&
+		spec_subnet_ok(h.net1) && spec_subnet_ok(h.net2) &&
+		vMapAll(h.table, func(k string, l *Lease) bool { return l != nil && spec_subnet_ok(l.subnet) })
+}
+
+// Every frame Parse classes as PayloadDHCP4 is processed without panic.
+// NOT PROVED and not part of any claimed check: executed whole (no contracts on handleRequest & co.)
+// the queries run to megabytes and minutes; kept as the starting point for per-function contracts.
+//
+//verif:timeout 120s
+func verif_lemma_dispatch_dhcp4(h *Handler, frame packet.Frame) {
+	vRequires(spec_handler_ok(h) && packet.VerifSpecFrameUDP(frame) && frame.PayloadID == packet.PayloadDHCP4)
+	vCanary()
+	_ = h.ProcessPacket(frame)
+}
